@@ -64,6 +64,7 @@ type tConn struct {
 	peerEnd  *sim.Conn // the peer's end (harness side)
 	dataEnd  *sim.Conn // client's data connection (harness side), once bound
 	gone     bool
+	orphan   bool // registered after its allocation was already gone (slow dial): lives until its own bind deadline
 	toPeer   []byte // bytes the client wrote after binding
 	toClient []byte
 	gotPeer  []byte
@@ -113,6 +114,7 @@ type TWorld struct {
 
 // TExec runs a TScript.
 type TExec struct {
+	waitS    int
 	w        *TWorld
 	Findings []Finding
 	St       Stats
@@ -324,6 +326,11 @@ func (x *TExec) request(c *tClient, conn *sim.Conn, rbuf *[]byte, ui int, m *ref
 		}
 		x.settle()
 		msgs, _, bad := drainFrames(conn, rbuf)
+		for w := 0; w < x.waitS && len(msgs) == 0 && !bad; w++ {
+			time.Sleep(time.Second) // a scripted slow dial delays the response
+			x.settle()
+			msgs, _, bad = drainFrames(conn, rbuf)
+		}
 		if bad {
 			x.fail([]string{"C09", "C19"}, "server-sent-garbage", "server wrote bytes that are not a TURN frame on a client connection")
 
@@ -361,6 +368,14 @@ func (x *TExec) userIdx(c *tClient, st *TStep) int {
 
 func (x *TExec) purge() {
 	now := time.Now()
+	for _, a := range x.w.gone {
+		for _, tc := range a.conns {
+			if tc.orphan && !tc.gone && !now.Before(tc.deadline) {
+				tc.gone = true
+				x.St.inc("tcp:orphan-expired")
+			}
+		}
+	}
 	for _, c := range x.w.clients {
 		a := c.alloc
 		if a == nil {
@@ -390,7 +405,9 @@ func (x *TExec) dropAlloc(c *tClient, why string) {
 		return
 	}
 	for _, tc := range c.alloc.conns {
-		tc.gone = true
+		if !tc.orphan {
+			tc.gone = true
+		}
 	}
 	x.w.gone = append(x.w.gone, c.alloc)
 	c.alloc = nil
